@@ -118,10 +118,34 @@ class OrderAnalysis:
         return self.obs
 
 
+def _commutative_reduce(call) -> bool:
+    """functools.reduce(OP, xs) with OP a commutative and associative set operation"""
+    if not (isinstance(call, ast.Call) and (A.dotted(call.func) or "").split(".")[-1] == "reduce" and len(call.args) >= 2):
+        return False
+    op = call.args[0]
+    d = A.dotted(op) or ""
+    if d in ("set.intersection", "set.union", "frozenset.intersection", "frozenset.union", "operator.and_", "operator.or_", "and_", "or_"):
+        return True
+    if isinstance(op, ast.Lambda) and len(op.args.args) == 2 and not op.args.defaults:
+        a, b = [x.arg for x in op.args.args]
+        body = op.body
+        if isinstance(body, ast.BinOp) and isinstance(body.op, (ast.BitAnd, ast.BitOr)) and {A.unparse(body.left), A.unparse(body.right)} == {a, b}:
+            return True
+        if isinstance(body, ast.Call) and isinstance(body.func, ast.Attribute) and body.func.attr in ("intersection", "union") and len(body.args) == 1 and {A.unparse(body.func.value), A.unparse(body.args[0])} == {a, b}:
+            return True
+    return False
+
+
 def _set_algebra_call(call) -> bool:
     """`set.intersection(..)` / `frozenset.union(..)` called on the class: the result does not depend on the
     order of the operands"""
-    return isinstance(call, ast.Call) and isinstance(call.func, ast.Attribute) and call.func.attr in ("intersection", "union") and isinstance(call.func.value, ast.Name) and call.func.value.id in ("set", "frozenset")
+    if not (isinstance(call, ast.Call) and isinstance(call.func, ast.Attribute)):
+        return False
+    if call.func.attr in ("intersection", "union") and isinstance(call.func.value, ast.Name) and call.func.value.id in ("set", "frozenset"):
+        return True
+    # S.difference_update(*sets) / S.update(*sets) / S.intersection_update(*sets) / S.union(*sets) ..: the operands
+    # are combined by a commutative operation
+    return call.func.attr in ("difference_update", "update", "intersection_update", "difference", "union", "intersection", "isdisjoint") and any(isinstance(a, ast.Starred) for a in call.args)
 
 
 class FnOrder:
@@ -395,6 +419,8 @@ class FnOrder:
         if isinstance(par, ast.Starred) and _set_algebra_call(A.parent(par)):
             # set.intersection(*[..]) / set.union(*[..]): commutative and associative over the operands
             return "set." + A.parent(par).func.attr  # type: ignore[union-attr]
+        if isinstance(par, ast.Call) and node in par.args and _commutative_reduce(par) and node is not par.args[0]:
+            return "reduce(" + A.unparse(par.args[0])[:30] + ")"
         if isinstance(par, ast.Call) and node in par.args:
             if isinstance(par.func, ast.Name) and par.func.id in INSENSITIVE:
                 if par.func.id == "sorted":
@@ -805,6 +831,8 @@ class FnOrder:
                     f = node.func
                     if isinstance(f, ast.Name) and f.id in INSENSITIVE | {"enumerate", "zip", "iter", "list", "tuple", "deque", "dict", "reversed", "next"}:
                         continue  # insensitive, or re-materialisation handled as its own site
+                    if _commutative_reduce(node):
+                        continue  # reduce(set.intersection / lambda a, b: a & b / operator.or_, xs): any order of xs gives the same set
                     if isinstance(f, ast.Attribute) and f.attr in (SET_MUT | {"intersection", "union", "difference", "issubset", "issuperset", "isdisjoint"}):
                         continue
                     if isinstance(f, ast.Attribute) and isinstance(f.value, ast.Name) and f.value.id in self.tainted and f.attr in (LIST_MUT | {"update"}):
